@@ -33,7 +33,7 @@ Example C10_view_contract_refuted :
   exists r v, rwf r /\ wf v r /\ uninit_filled v r /\
     r_as_init v r = Ok (0, 8) /\ r_as_uninit v r = Ok (8, 2).
 Proof.
-  exists (mkroot KVec (canaries_from 0 10) 8), (VUninit VBase 0).
+  exists (mkroot KVec (canaries_from 0 10) 8 0), (VUninit VBase 0).
   split; [split; [vm_compute; lia|discriminate]|].
   split; [cbn; split; [exact I|exists 8; split; [reflexivity|lia]]|].
   split; [right; vm_compute; discriminate|].
@@ -58,7 +58,7 @@ Theorem C10_fill_visible : forall r v bs o c,
     sub_list (rcells r') o (length bs) = bs /\
     firstn o (rcells r') = firstn o (rcells r) /\
     skipn (o + length bs) (rcells r') = skipn (o + length bs) (rcells r) /\
-    length (rcells r') = length (rcells r) /\
+    length (rcells r') = length (rcells r) /\ rcap r' = rcap r /\
     rwf r' /\ wf v r' /\
     exists l, r_as_init v r = Ok (o, l) /\ r_as_init v r' = Ok (o, Nat.max l (length bs)).
 Proof. exact fill_visible_full. Qed.
@@ -72,7 +72,7 @@ Example C10_fill_visible_refuted :
     r_as_uninit v r = Ok (o, c) /\ length bs <= c /\
     r_fill v bs r = Ok r' /\ rlen r' < o + length bs.
 Proof.
-  exists (mkroot KVec (canaries_from 0 10) 3), (VUninit VBase 0), [1;2]%N, 3, 7.
+  exists (mkroot KVec (canaries_from 0 10) 3 0), (VUninit VBase 0), [1;2]%N, 3, 7.
   eexists.
   split; [split; [vm_compute; lia|discriminate]|].
   split; [cbn; split; [exact I|exists 3; split; [reflexivity|lia]]|].
@@ -95,6 +95,68 @@ Theorem C10_fill_sequence : forall v, pure v -> forall bss r o c,
     rwf r' /\ wf v r' /\ r_as_uninit v r' = Ok (o, c).
 Proof. exact fill_sequence. Qed.
 Print Assumptions C10_fill_sequence.
+
+(* Slice<Slice<T>>::flatten: for EVERY nested slice (all four Some/None end
+   combinations, any begins) over any view, in EVERY root state (also states in
+   which the ranges panic): the flattened slice reports the same as_init and
+   as_uninit ranges and has the same set_len effect as the nested one; it is
+   well-constructed when the nested one is, and stays outside/inside the
+   known class with it. *)
+Theorem C10_flatten_same_view : forall v v',
+  flatten_view v = Some v' -> forall r,
+  r_as_init v' r = r_as_init v r /\ r_as_uninit v' r = r_as_uninit v r /\
+  (forall k, r_set_len v' k r = r_set_len v k r) /\
+  (wf v r -> wf v' r) /\ (pure v -> pure v') /\
+  (uninit_filled v' r <-> uninit_filled v r).
+Proof. exact flatten_same_view. Qed.
+Print Assumptions C10_flatten_same_view.
+
+Example C10_nonvacuous_flatten :
+  let r := mkroot KVec (canaries_from 0 12) 9 0 in
+  let v := VSlice (VSlice VBase 2 (Some 7)) 1 (Some 30) in
+  wf v r /\ flatten_view v = Some (VSlice VBase 3 (Some 7)) /\
+  r_as_init v r = Ok (3, 4) /\ r_as_uninit v r = Ok (3, 4).
+Proof.
+  cbn zeta. split.
+  { cbn [wf]. repeat split; try lia.
+    - exists 9. split; [reflexivity|lia].
+    - exists 5. split; [vm_compute; reflexivity|lia]. }
+  split; [reflexivity|]. split; vm_compute; reflexivity.
+Qed.
+Print Assumptions C10_nonvacuous_flatten.
+
+(* pool buffers (compio_driver::BufferRef) are one more root kind [KPool]
+   (set_len = min(len, cap), cap user-set below the full length): the theorems
+   above quantify over every root, hence over pool buffers in every
+   capacity state.  BufferRef::set_capacity(n), from the code: nothing for
+   n = 0; otherwise cap' = min(n, full length), len' = min(len, cap'), content
+   untouched, and length <= capacity <= full length afterwards. *)
+Theorem C10_pool_set_capacity : forall r n,
+  rkind r = KPool -> rwf r ->
+  let r' := pool_set_capacity n r in
+  let full := length (rcells r) in
+  rkind r' = KPool /\ rcells r' = rcells r /\
+  (n = 0%N -> r' = r) /\
+  (n <> 0%N ->
+     rcap r' = Nat.min (N.to_nat n) full /\ rlen r' = Nat.min (rlen r) (rcap r')) /\
+  rwf r' /\ rcap r' <= full.
+Proof. exact pool_set_capacity_spec. Qed.
+Print Assumptions C10_pool_set_capacity.
+
+Example C10_nonvacuous_pool :
+  let r := pool_set_capacity 6 (mkroot KPool (canaries_from 0 16) 9 16) in
+  let v := VSlice VBase 2 None in
+  rkind r = KPool /\ rwf r /\ rlen r = 6 /\ rcap r = 6 /\ wf v r /\ ~ uninit_filled v r /\
+  r_as_init v r = Ok (2, 4) /\ r_as_uninit v r = Ok (2, 4) /\
+  exists r', r_fill v [7;7;7]%N (pool_set_capacity 12 r) = Ok r' /\ rlen r' = 6 /\ rcap r' = 12.
+Proof.
+  cbn zeta. split; [reflexivity|]. split; [split; [vm_compute; lia|discriminate]|].
+  split; [reflexivity|]. split; [reflexivity|].
+  split; [cbn [wf]; split; [exact I|split; [exists 6; split; [reflexivity|lia]|exact I]]|].
+  split; [cbn; tauto|]. split; [vm_compute; reflexivity|]. split; [vm_compute; reflexivity|].
+  eexists. split; [vm_compute; reflexivity|]. split; reflexivity.
+Qed.
+Print Assumptions C10_nonvacuous_pool.
 
 (* the appending protocol of an Uninit view (the one repeated fills through it
    must use): for every Uninit over an Uninit-free view that reaches the end of
@@ -141,7 +203,7 @@ Example C10_vectored_fill_refuted :
     vfill CList WBase bs ms = Ok ms' /\ ms' <> vspec ms bs /\
     map rlen ms' = [0; 8] /\ map rlen (vspec ms bs) = [4; 8].
 Proof.
-  exists [mkroot KVec (canaries_from 0 10) 0; mkroot KVec (canaries_from 0 10) 8], [1;2;3;4]%N.
+  exists [mkroot KVec (canaries_from 0 10) 0 0; mkroot KVec (canaries_from 0 10) 8 0], [1;2;3;4]%N.
   eexists.
   split; [repeat constructor; try (vm_compute; lia); discriminate|].
   split; [intros [[H _]|H]; [vm_compute in H; discriminate|inversion H; subst; discriminate]|].
@@ -162,7 +224,7 @@ Theorem C10_viter_first_fill : forall pre m post bs,
   exists it',
     i_fill CList WBase VBase bs (it, ms) =
       Ok (it', pre ++ mkroot (rkind m) (write_at (rcells m) 0 bs)
-                             (Nat.max (rlen m) (length bs)) :: post).
+                             (Nat.max (rlen m) (length bs)) (rlim m) :: post).
 Proof. exact viter_first_fill. Qed.
 Print Assumptions C10_viter_first_fill.
 
@@ -170,7 +232,7 @@ Print Assumptions C10_viter_first_fill.
    reported at offset 3, the writable part at offset 0 *)
 Example C10_viter_after_fill_refuted :
   exists s,
-    i_advance_to CList WBase VBase 3 (mkiter 0 1 0 0, [mkroot KVec (canaries_from 0 10) 0]) = Ok s /\
+    i_advance_to CList WBase VBase 3 (mkiter 0 1 0 0, [mkroot KVec (canaries_from 0 10) 0 0]) = Ok s /\
     i_as_init WBase VBase s = Ok (3, 0) /\ i_as_uninit WBase VBase s = Ok (0, 10).
 Proof. eexists. split; [vm_compute; reflexivity|]. split; vm_compute; reflexivity. Qed.
 Print Assumptions C10_viter_after_fill_refuted.
@@ -180,7 +242,7 @@ Print Assumptions C10_viter_after_fill_refuted.
 Example C10_viter_next_partial_refuted :
   exists it1 ms1 it2 it3 ms3,
     viter_set_len CList WBase 2
-      (mkiter 0 2 0 0, [mkroot KVec (canaries_from 0 10) 0; mkroot KVec (canaries_from 0 10) 0])
+      (mkiter 0 2 0 0, [mkroot KVec (canaries_from 0 10) 0 0; mkroot KVec (canaries_from 0 10) 0 0])
       = Ok (it1, ms1) /\
     viter_next it1 = Some it2 /\
     viter_set_len CList WBase 1 (it2, ms1) = Ok (it3, ms3) /\
@@ -194,9 +256,9 @@ Print Assumptions C10_viter_next_partial_refuted.
 (* known class: slice_mut(3) of [Vec(len 0, cap 10)] is constructed, but its
    iter_slice (hence total_len, advance_vec_to) panics on `&buf[3..]` *)
 Example C10_vslice_uninit_offset_refuted :
-  exists w, mk_vslice true WBase 3 [mkroot KVec (canaries_from 0 10) 0] = Ok w /\
-    iter_slice w [mkroot KVec (canaries_from 0 10) 0] = Panic P_SLICE_INDEX /\
-    iter_uninit w [mkroot KVec (canaries_from 0 10) 0] = Ok [(0, 3, 7)].
+  exists w, mk_vslice true WBase 3 [mkroot KVec (canaries_from 0 10) 0 0] = Ok w /\
+    iter_slice w [mkroot KVec (canaries_from 0 10) 0 0] = Panic P_SLICE_INDEX /\
+    iter_uninit w [mkroot KVec (canaries_from 0 10) 0 0] = Ok [(0, 3, 7)].
 Proof. eexists. split; [vm_compute; reflexivity|]. split; vm_compute; reflexivity. Qed.
 Print Assumptions C10_vslice_uninit_offset_refuted.
 
@@ -206,7 +268,7 @@ Example C10_bounded_slice_advance_refuted :
   exists r v r', rwf r /\ wf v r /\ pure v /\
     r_advance v 0 r = Ok r' /\ rlen r = 5 /\ rlen r' = 2.
 Proof.
-  exists (mkroot KVec (canaries_from 0 5) 5), (VSlice VBase 0 (Some 2)). eexists.
+  exists (mkroot KVec (canaries_from 0 5) 5 0), (VSlice VBase 0 (Some 2)). eexists.
   split; [split; [vm_compute; lia|discriminate]|].
   split; [cbn; split; [exact I|split; [exists 5; split; [reflexivity|lia]|lia]]|].
   split; [exact I|]. split; [vm_compute; reflexivity|]. split; reflexivity.
@@ -215,7 +277,7 @@ Print Assumptions C10_bounded_slice_advance_refuted.
 
 (* non-vacuity: the hypotheses are met by concrete non-trivial states *)
 Example C10_nonvacuous_view :
-  let r := mkroot KVec (canaries_from 0 10) 6 in
+  let r := mkroot KVec (canaries_from 0 10) 6 0 in
   let v := VSlice (VUninit (VSlice VBase 1 (Some 9)) 5) 0 (Some 2) in
   rwf r /\ wf v r /\ ~ uninit_filled v r /\
   r_as_init v r = Ok (6, 0) /\ r_as_uninit v r = Ok (6, 2) /\
@@ -236,15 +298,15 @@ Qed.
 Print Assumptions C10_nonvacuous_view.
 
 Example C10_nonvacuous_vectored :
-  let ms := [mkroot KVec (canaries_from 0 4) 4; mkroot KArrayVec (canaries_from 0 4) 1;
-             mkroot KVec (canaries_from 0 4) 0] in
+  let ms := [mkroot KVec (canaries_from 0 4) 4 0; mkroot KArrayVec (canaries_from 0 4) 1 0;
+             mkroot KVec (canaries_from 0 4) 0 0] in
   Forall rwf ms /\ seqp ms /\ ~ vec_known ms /\
   exists ms', vfill CList WBase [1;2;3;4;5;6;7]%N ms = Ok ms' /\ map rlen ms' = [4; 3; 0].
 Proof.
   cbn zeta.
   split; [repeat constructor; try (vm_compute; lia); discriminate|].
-  assert (S : seqp [mkroot KVec (canaries_from 0 4) 4; mkroot KArrayVec (canaries_from 0 4) 1;
-                    mkroot KVec (canaries_from 0 4) 0]).
+  assert (S : seqp [mkroot KVec (canaries_from 0 4) 4 0; mkroot KArrayVec (canaries_from 0 4) 1 0;
+                    mkroot KVec (canaries_from 0 4) 0 0]).
   { left. split; [reflexivity|]. right. repeat constructor. }
   split; [exact S|]. split; [intros H; exact (H S)|].
   eexists. split; vm_compute; reflexivity.
